@@ -689,13 +689,12 @@ where
                                     });
                                 };
                                 // we can delete the buffered_lcs elem now:
-                                assert!(
-                                    buffered_lcs.contains(&lc2.id),
-                                    "buffered_lcs does not contain {} msg:{:?}",
-                                    lc2.id,
-                                    msg
-                                ); // logical error otherwise (prev lc still buffered but the newer one that is to be merged into the prev one not?)
-                                buffered_lcs.remove(&lc2.id);
+                                if !buffered_lcs.remove(&lc2.id) {
+                                    // lc2 was confirmed (e.g. by its time span) and thus published already while
+                                    // prev_lc is still buffered. All its msgs are still buffered (behind the ones
+                                    // from prev_lc) so the merge is fine but the published entry is invalid now:
+                                    lcs_w.empty(lc2.id);
+                                }
                                 remove_last_lc = true;
                                 // if we have no more yet, send the other msgs: (not possible as prev_lc exists)
                             } else {
@@ -731,8 +730,12 @@ where
                                             }
                                         });
                                     };
-                                    if !buffered_lcs.remove(&lc2.id) && moved_msgs != lc2_msgs {
-                                        println!("merged lc was not in buffered_lcs or its msgs not buffered anymore!\n {:?}\n {:?} msg #{}, moved_msgs={} vs {}", prev_lc, lc2, last_msg_index, moved_msgs, lc2_msgs);
+                                    if !buffered_lcs.remove(&lc2.id) {
+                                        // lc2 was published already. As it's merged now the published entry is invalid:
+                                        lcs_w.empty(lc2.id);
+                                        if moved_msgs != lc2_msgs {
+                                            println!("merged lc was not in buffered_lcs or its msgs not buffered anymore!\n {:?}\n {:?} msg #{}, moved_msgs={} vs {}", prev_lc, lc2, last_msg_index, moved_msgs, lc2_msgs);
+                                        }
                                     }
                                     remove_last_lc = true;
                                 } else {
